@@ -142,7 +142,7 @@ func runC01(c *core.Ctx) {
 		n := 0
 		for _, setter := range []*ssa.Function{setAsync, setOnePC} {
 			for _, ci := range core.FindCalls(execute, core.CallsTo(setter)) {
-				cst, ok := argOf(ci, 0).(*ssa.Const)
+				cst, ok := asConst(argOf(ci, 0))
 				if !ok || cst.Value == nil || cst.Value.String() != "true" {
 					continue
 				}
